@@ -109,6 +109,9 @@ def setTaint (why : String) : M Unit := fun s =>
 
 def getSt : M St := fun s => .ok (s, s)
 
+/-- `if c then setTaint why` as one action -/
+def taintIf (c : Bool) (why : String) : M Unit := if c then setTaint why else pure ()
+
 /-- the bytes a read of `n` delivers (possibly fewer), advancing the position;
     istream: a read that hits the end leaves the stream failed -/
 def readSome (n : Nat) : M (List Nat) := fun s =>
@@ -318,13 +321,16 @@ def readHeader : M Info := do
 /-- palette entries (r,g,b,a) -/
 abbrev Palette := List (Nat × Nat × Nat × Nat)
 
+/-- the fourth byte of a palette entry (40-byte header only) -/
+def skipByteIf (c : Bool) : M Unit := if c then (do let _ ← readU8; pure ()) else pure ()
+
 def readPaletteLoop (four : Bool) : Nat → Palette → M Palette
   | 0, acc => pure acc.reverse
   | n + 1, acc => do
     let b ← readU8
     let g ← readU8
     let r ← readU8
-    if four then let _ ← readU8; pure () else pure ()
+    skipByteIf four
     readPaletteLoop four n ((r.toNat, g.toNat, b.toNat, 0) :: acc)
 
 /-- reader_backend::read_palette (and the scanline reader's copy) -/
@@ -383,7 +389,7 @@ def lookupAll (site why : String) (pal : Palette) (dst : Dst) (declared : Int :=
   | c :: cs, acc =>
     match pal[c]? with
     | some p => do
-      if Int.ofNat c ≥ declared then setTaint "palette index beyond the entries the header declares is read from the zero padding instead of being reported" else pure ()
+      taintIf (decide (Int.ofNat c ≥ declared)) "palette index beyond the entries the header declares is read from the zero padding instead of being reported"
       lookupAll site why pal dst declared cs ((palPixel dst p).reverse ++ acc)
     | none => ubAt site why
 
@@ -548,7 +554,7 @@ def putRun (r : Rle) (vals : List (Nat × Nat × Nat × Nat)) : M Rle :=
 def palAt (pal : Palette) (declared : Int) (c : Int) : M (Nat × Nat × Nat × Nat) :=
   match pal[c.toNat]? with
   | some p => do
-    if c ≥ declared then setTaint "palette index beyond the entries the header declares is read from the zero padding instead of being reported" else pure ()
+    taintIf (decide (c ≥ declared)) "palette index beyond the entries the header declares is read from the zero padding instead of being reported"
     pure p
   | none => ubAt ("vector-index@" ++ fRle) "palette index from the RLE data is >= the palette size declared by the header"
 
@@ -578,6 +584,26 @@ def absRun4 (pal : Palette) (declared : Int) (count second : Int) : Nat → Int 
         absRun4 pal declared count second fuel (i + 2) r
     else pure r
 
+/-- `if (dy) copy_row_if_needed(...)` -/
+def copyRowIf (c : Bool) (st : Settings) (dimx dimy : Int) (r : Rle) (d : Dest) : M Dest :=
+  if c then copyRowIfNeeded st dimx dimy r d else pure d
+
+/-- `_palette[idx]` evaluated only when the run writes at least `need` > 0 pixels -/
+def palAtIf (pal : Palette) (declared : Int) (idx : Int) (need : Int) : M (Nat × Nat × Nat × Nat) :=
+  if need ≤ 0 then pure (0, 0, 0, 0) else palAt pal declared idx
+
+/-- absolute mode: `count` (clamped) of the `second` coded pixels -/
+def absRun (i : Info) (pal : Palette) (count second : Int) (r : Rle) : M Rle :=
+  if i.comp == 2 then absRun4 pal (declaredEntries i) count second (count.toNat + 1) 0 r
+  else absRun8 pal (declaredEntries i) count.toNat r
+
+/-- pad to word boundary: `(stream_pos - get_offset(0)) & 1` -/
+def padWord (i : Info) (pitch : Int) (r : Rle) : M Rle :=
+  if (r.streamPos - getOffset i pitch 0) % 2 == 1 then do
+    seekCur 1
+    pure { r with streamPos := r.streamPos + 1 }
+  else pure r
+
 /-- read_palette_image_rle main loop; one unit of fuel per `while (!finished)` iteration -/
 def rleLoop (i : Info) (pitch : Int) (st : Settings) (dimx dimy : Int) (pal : Palette) (yend yinc : Int) :
     Nat → Rle → Dest → M Dest
@@ -590,13 +616,13 @@ def rleLoop (i : Info) (pitch : Int) (st : Settings) (dimx dimy : Int) (pal : Pa
       let count := if count > r.xend - r.x then r.xend - r.x else count
       -- a negative count (dst_it beyond dst_end) runs no iteration
       if i.comp == 2 then
-        let p0 ← palAt' pal (declaredEntries i) (second / 16) count
-        let p1 ← palAt' pal (declaredEntries i) (second % 16) (count - 1)
+        let p0 ← palAtIf pal (declaredEntries i) (second / 16) count
+        let p1 ← palAtIf pal (declaredEntries i) (second % 16) (count - 1)
         let vals := (List.range count.toNat).map (fun k => if k % 2 == 0 then p0 else p1)
         let r ← putRun r vals
         rleLoop i pitch st dimx dimy pal yend yinc fuel r d
       else
-        let p ← palAt' pal (declaredEntries i) second count
+        let p ← palAtIf pal (declaredEntries i) second count
         let r ← putRun r (List.replicate count.toNat p)
         rleLoop i pitch st dimx dimy pal yend yinc fuel r d
     else if second == 0 then
@@ -611,7 +637,7 @@ def rleLoop (i : Info) (pitch : Int) (st : Settings) (dimx dimy : Int) (pal : Pa
       let dy0 ← readU8
       let dy := dy0 * yinc
       let r := { r with streamPos := r.streamPos + 2 }
-      let d ← if dy ≠ 0 then copyRowIfNeeded st dimx dimy r d else pure d
+      let d ← copyRowIf (decide (dy ≠ 0)) st dimx dimy r d
       let x := r.x + dx
       if x > i.width then ioErr
       else
@@ -623,17 +649,9 @@ def rleLoop (i : Info) (pitch : Int) (st : Settings) (dimx dimy : Int) (pal : Pa
           rleLoop i pitch st dimx dimy pal yend yinc fuel { r with x := x, y := y, xend := r.buf.length } d
     else
       let count := if second > r.xend - r.x then r.xend - r.x else second
-      let r ← if i.comp == 2 then absRun4 pal (declaredEntries i) count second (count.toNat + 1) 0 r else absRun8 pal (declaredEntries i) count.toNat r
-      -- pad to word boundary: (stream_pos - get_offset(0)) & 1
-      let r ← if (r.streamPos - getOffset i pitch 0) % 2 == 1 then do
-                  seekCur 1
-                  pure { r with streamPos := r.streamPos + 1 }
-                else pure r
+      let r ← absRun i pal count second r
+      let r ← padWord i pitch r
       rleLoop i pitch st dimx dimy pal yend yinc fuel r d
-where
-  /-- `_palette[idx]` evaluated only when the run writes at least `need` > 0 pixels -/
-  palAt' (pal : Palette) (declared : Int) (idx : Int) (need : Int) : M (Nat × Nat × Nat × Nat) :=
-    if need ≤ 0 then pure (0, 0, 0, 0) else palAt pal declared idx
 
 /-- read_palette_image_rle -/
 def readPaletteImageRle (i : Info) (pitch : Int) (st : Settings) (dimx dimy : Int) (d : Dest) : M Dest := do
@@ -648,6 +666,24 @@ def readPaletteImageRle (i : Info) (pitch : Int) (st : Settings) (dimx dimy : In
     rleLoop i pitch st dimx dimy pal yend yinc fuel
       { buf := List.replicate i.width.toNat (0, 0, 0, 0), x := 0, xend := i.width, y := ybeg, streamPos := i.offset } d
 
+/-- the `switch (_info._bits_per_pixel)` of reader::apply -/
+def dispatch (i : Info) (pitch : Int) (st : Settings) (dimx dimy : Int) (d : Dest) : M Dest :=
+  if i.bpp == 1 then readPaletteImage i pitch st dimx dimy d
+  else if i.bpp == 4 then
+    if i.comp == 2 then readPaletteImageRle i pitch st dimx dimy d
+    else if i.comp == 0 then readPaletteImage i pitch st dimx dimy d
+    else ioErr
+  else if i.bpp == 8 then
+    if i.comp == 1 then readPaletteImageRle i pitch st dimx dimy d
+    else if i.comp == 0 then readPaletteImage i pitch st dimx dimy d
+    else ioErr
+  else if i.bpp == 15 ∨ i.bpp == 16 then readData15 i pitch st dimx dimy d
+  else if i.bpp == 24 then readData i pitch st dimx dimy 3 d
+  else if i.bpp == 32 then readData i pitch st dimx dimy 4 d
+  else do              -- no default in the switch: nothing is read (reachable with read_and_convert_image only)
+    setTaint ("unsupported bits-per-pixel value falls through the switch in apply(): nothing is read, the destination is returned unwritten (" ++ fRead ++ ":apply)")
+    pure d
+
 /-- reader::apply -/
 def apply (i : Info) (st : Settings) (dimx dimy : Int) (d : Dest) : M Dest := do
   let ok ← isAllowed i st
@@ -660,21 +696,7 @@ def apply (i : Info) (st : Settings) (dimx dimy : Int) (d : Dest) : M Dest := do
     else
       let p0 : Int := if i.bpp < 8 then (raw + 7) / 8 else raw       -- >> 3 on int is arithmetic (floor)
       let pitch := wrapU 64 (wrapU 64 p0 + 3) / 4 * 4                 -- size_t: (_pitch + 3) & ~3
-      if i.bpp == 1 then readPaletteImage i pitch st dimx dimy d
-      else if i.bpp == 4 then
-        if i.comp == 2 then readPaletteImageRle i pitch st dimx dimy d
-        else if i.comp == 0 then readPaletteImage i pitch st dimx dimy d
-        else ioErr
-      else if i.bpp == 8 then
-        if i.comp == 1 then readPaletteImageRle i pitch st dimx dimy d
-        else if i.comp == 0 then readPaletteImage i pitch st dimx dimy d
-        else ioErr
-      else if i.bpp == 15 ∨ i.bpp == 16 then readData15 i pitch st dimx dimy d
-      else if i.bpp == 24 then readData i pitch st dimx dimy 3 d
-      else if i.bpp == 32 then readData i pitch st dimx dimy 4 d
-      else do              -- no default in the switch: nothing is read (reachable with read_and_convert_image only)
-        setTaint ("unsupported bits-per-pixel value falls through the switch in apply(): nothing is read, the destination is returned unwritten (" ++ fRead ++ ":apply)")
-        pure d
+      dispatch i pitch st dimx dimy d
 
 /-! ### scanline reader -/
 
@@ -693,6 +715,63 @@ def scanRowsBuf (i : Info) (pitch : Int) (rowFn : ScanBufs → M ScanBufs) : Nat
     let bufs ← rowFn bufs
     scanRowsBuf i pitch rowFn n (pos + 1) bufs (bufs.dst :: acc)
 
+/-- iterate begin()..end(): both iterators allocate a `_scanline_length` buffer; rows = `_info._height` -/
+def scanFinish (i : Info) (pitch : Int) (sl : Int) (buf0 : List Nat) (rowFn : ScanBufs → M ScanBufs) : M Img := do
+  if i.height > scanRowLimit then stop (.err "big") else
+  alloc sl
+  if sl == 0 then
+    ubAt ("vector-empty@" ++ fScan ++ ":begin") "scanline_read_iterator: &buffer_->front() on an empty buffer (zero width taken from the file)"
+  else if i.height < 0 then
+    stop (.hang "negative height (only a 40-byte header is normalised): `it != end()` is not reached by incrementing from begin()")
+  else
+  let rows := i.height.toNat
+  let rs ← scanRowsBuf i pitch rowFn rows 0 { dst := List.replicate sl.toNat 0, buf := buf0 } []
+  pure { hdr := [i.width, i.height, sl, rows], pix := rs.reverse.flatten }
+
+/-- read_1_bit_row / read_4_bits_row / read_8_bits_row + read_bit_row -/
+def scanPaletteRow (i : Info) (pitch : Int) (pal : Palette) (b : ScanBufs) : M ScanBufs := do
+  let site := fScan ++ ":read_bit_row"
+  if pitch == 0 then ubAt ("vector-empty@" ++ fScan ++ ":read_row_bits") "&_buffer.front() on an empty buffer" else
+  let row ← readInto site b.buf pitch.toNat
+  let row := manip i.bpp row
+  let idx := (rowIndices i.bpp row).take i.width.toNat
+  let px ← lookupAll ("vector-index@" ++ site) "palette index from the pixel data is >= the palette size declared by the header" pal .rgba8 (declaredEntries i) idx []
+  pure { dst := px ++ b.dst.drop px.length, buf := row }
+
+/-- read_15_bits_row -/
+def scan15Row (i : Info) (pitch : Int) (ms : Mask × Mask × Mask) (b : ScanBufs) : M ScanBufs := do
+  let site := fScan ++ ":read_15_bits_row"
+  if pitch == 0 then ubAt ("vector-empty@" ++ site) "&_buffer.front() on an empty buffer" else
+  let row ← readInto site b.buf pitch.toNat
+  let px ← row15 site ms i.width.toNat row []
+  pure { dst := px ++ b.dst.drop px.length, buf := row }
+
+/-- read_row (24 / 32 bit): the whole scanline (padding included) is handed to the caller -/
+def scanRawRow (pitch : Int) (b : ScanBufs) : M ScanBufs := do
+  if pitch < 0 then pure b else
+  let row ← readInto (fScan ++ ":read_row") b.dst pitch.toNat
+  pure { b with dst := row }
+
+/-- scanline_reader::initialize after the pitch has been computed -/
+def scanWith (i : Info) (pitch : Int) : M Img := do
+  let sl4 := wrapU 64 (wrapU 64 (wrapU 64 i.width * 4) + 3) / 4 * 4
+  let sl3 := wrapU 64 (wrapU 64 (wrapU 64 i.width * 3) + 3) / 4 * 4
+  if i.bpp == 1 ∨ ((i.bpp == 4 ∨ i.bpp == 8) ∧ i.comp == 0) then
+    let pal ← readPalette i
+    if pitch < 0 then allocErr else
+    alloc pitch
+    scanFinish i pitch sl4 (List.replicate pitch.toNat 0) (scanPaletteRow i pitch pal)
+  else if i.bpp == 4 then (if i.comp == 2 then ioErr else ioErr)
+  else if i.bpp == 8 then (if i.comp == 1 then ioErr else ioErr)
+  else if i.bpp == 15 ∨ i.bpp == 16 then
+    if pitch < 0 then allocErr else
+    alloc pitch
+    let ms ← readMasks i
+    scanFinish i pitch sl3 (List.replicate pitch.toNat 0) (scan15Row i pitch ms)
+  else if i.bpp == 24 ∨ i.bpp == 32 then
+    scanFinish i pitch (if i.bpp == 24 then sl3 else sl4) [] (scanRawRow pitch)
+  else ioErr
+
 def scan (i : Info) : M Img := do
   let raw : Int := if i.bpp < 8 then i.width * i.bpp else i.width * ((i.bpp + 7) / 8)
   if !inS32 raw ∨ (i.bpp < 8 ∧ !inS32 (raw + 7)) then
@@ -700,55 +779,7 @@ def scan (i : Info) : M Img := do
   else
     let p0 : Int := if i.bpp < 8 then (raw + 7) / 8 else raw
     if !inS32 (p0 + 3) then ubAt ("signed-integer-overflow@" ++ fScan ++ ":initialize") "_pitch + 3 overflows int"
-    else
-    let pitch : Int := (p0 + 3) / 4 * 4        -- int: (_pitch + 3) & ~3
-    let sl4 := wrapU 64 (wrapU 64 (wrapU 64 i.width * 4) + 3) / 4 * 4
-    let sl3 := wrapU 64 (wrapU 64 (wrapU 64 i.width * 3) + 3) / 4 * 4
-    -- finish: iterate begin()..end(): both iterators allocate a _scanline_length buffer; rows = _info._height
-    let finish (sl : Int) (buf0 : List Nat) (rowFn : ScanBufs → M ScanBufs) : M Img := do
-      if i.height > scanRowLimit then stop (.err "big") else
-      alloc sl
-      if sl == 0 then
-        ubAt ("vector-empty@" ++ fScan ++ ":begin") "scanline_read_iterator: &buffer_->front() on an empty buffer (zero width taken from the file)"
-      else if i.height < 0 then
-        stop (.hang "negative height (only a 40-byte header is normalised): `it != end()` is not reached by incrementing from begin()")
-      else
-      let rows := i.height.toNat
-      let rs ← scanRowsBuf i pitch rowFn rows 0 { dst := List.replicate sl.toNat 0, buf := buf0 } []
-      pure { hdr := [i.width, i.height, sl, rows], pix := rs.reverse.flatten }
-    if i.bpp == 1 ∨ ((i.bpp == 4 ∨ i.bpp == 8) ∧ i.comp == 0) then
-      let pal ← readPalette i
-      if pitch < 0 then allocErr else
-      alloc pitch
-      let site := fScan ++ ":read_bit_row"
-      finish sl4 (List.replicate pitch.toNat 0) (fun b => do
-        if pitch == 0 then ubAt ("vector-empty@" ++ fScan ++ ":read_row_bits") "&_buffer.front() on an empty buffer" else
-        let row ← readInto site b.buf pitch.toNat
-        let row := manip i.bpp row
-        let idx := (rowIndices i.bpp row).take i.width.toNat
-        let ppb : Int := if i.bpp == 8 then 1 else if i.bpp == 4 then 2 else 8
-        let px ← lookupAll ("vector-index@" ++ site) "palette index from the pixel data is >= the palette size declared by the header" pal .rgba8 (declaredEntries i) idx []
-        pure { dst := px ++ b.dst.drop px.length, buf := row })
-    else if i.bpp == 4 then (if i.comp == 2 then ioErr else ioErr)
-    else if i.bpp == 8 then (if i.comp == 1 then ioErr else ioErr)
-    else if i.bpp == 15 ∨ i.bpp == 16 then
-      if pitch < 0 then allocErr else
-      alloc pitch
-      let ms ← readMasks i
-      let site := fScan ++ ":read_15_bits_row"
-      finish sl3 (List.replicate pitch.toNat 0) (fun b => do
-        if pitch == 0 then ubAt ("vector-empty@" ++ site) "&_buffer.front() on an empty buffer" else
-        let row ← readInto site b.buf pitch.toNat
-        let px ← row15 site ms i.width.toNat row []
-        pure { dst := px ++ b.dst.drop px.length, buf := row })
-    else if i.bpp == 24 ∨ i.bpp == 32 then
-      let sl := if i.bpp == 24 then sl3 else sl4
-      finish sl [] (fun b => do
-        if pitch < 0 then pure b else
-        let site := fScan ++ ":read_row"
-        let row ← readInto site b.dst pitch.toNat        -- the whole scanline (padding included) is handed to the caller
-        pure { b with dst := row })
-    else ioErr
+    else scanWith i ((p0 + 3) / 4 * 4)        -- int: (_pitch + 3) & ~3
 
 /-- the whole BMP read for one entry point -/
 def run (st : Settings) : M Img := do
